@@ -6,6 +6,9 @@ label sets (catalogue + SI-scaled), Limit configurations over class hierarchies 
 generated history is issued on the real code (dispatcher request or driver-side call/assignment); after every
 operation all linked parameter values and the update stream are recorded.  The Lean model replays the same history
 with the same oracle outputs (correspondence), the Lean monitors judge the recorded values (failing-input search).
+Struct parameters additionally under overlapping operations: 2..3 threads (poller, client, driver) on one module under the
+deterministic scheduler (vlib.sched), judged at the quiescent points and replayed by the model (verb struct_overlap).
+Limits: values right next to a limit (one ulp, relative, absolute offsets) with exact per-case scaling.
 """
 import json
 import os
@@ -29,9 +32,17 @@ META = {
                   'parameter current at that moment whenever the automatic check applies - in particular an inherited check_<p> never '
                   'switches it off; an inverted limits pair is refused and changes nothing) + limits_enforced_plain, single_controller (per '
                   'output, any wiring of inputs to several outputs) + takeover_switches_off + outputs_independent + '
-                  'controlled_by_names_active.  Models tied to frappy/extparams.py, params.Limit, modulebase.__init_subclass__/checkLimits '
+                  'controlled_by_names_active.  Struct parameters also under OVERLAPPING operations of several threads '
+                  '(struct_members_agree_overlapped: a generated read_/write_<struct> of the member-wise layout or a generated member method '
+                  'of the combined layout with any assignments of other threads to the struct or to members before each of its steps, any '
+                  'values seen by cache reads outside updateLock; the per-thread guard counter of fix 8a147a3 is what it rests on - '
+                  'shared_guard_loses_member_update and shared_counter_update_lost are the proved counterexamples for one counter shared by '
+                  'all threads).  Models tied to frappy/extparams.py, params.Limit, modulebase.__init_subclass__/checkLimits '
                   'and mixins.py by a correspondence run on real modules behind a real dispatcher (values, update stream, pending-error '
-                  'flags after every operation); the Lean monitors judge the values recorded after every operation.',
+                  'flags after every operation) and, for struct parameters, on runs of 2..3 threads under the deterministic scheduler '
+                  '(catalogue of basic overlaps with all single preemptions + random programs and schedules; the order of the updateLock '
+                  'sections and of the cache reads is recorded and the model replays the run with the assignments of the other threads at '
+                  'these positions); the Lean monitors judge the values recorded after every operation / at every quiescent point.',
     'level_note': 'Trusted: Lean kernel + axioms propext/Classical.choice/Quot.sound; values are exact rationals (integers over a common '
                   'denominator) - binary64 subtraction/comparison is assumed to agree on the generated values; driver method bodies and '
                   'programmer-written check_<p> methods are scripted oracles (value / None / True / SECoP error / ValueError, KeyError, '
@@ -44,6 +55,12 @@ META = {
         'driver glue: which clause applies to a control operation (take-over by input k / by the output / none) is read off the '
         'operation and the flags recorded before it; which check_<p> returned True is recorded by the scripted check methods',
         'the two extremes of omit_unchanged_within (0 and 10^6 s) stand for every timing under the default window',
+        'overlapping operations: vlib.sched switches threads only at lock / send primitives (and, for a tree whose guard counter is a '
+        'plain integer, between its load and its store); what runs under updateLock is atomic for every other thread taking that lock; '
+        'a read of a cached value outside the lock is one reference read.  Runs in which such a read falls into the middle of another '
+        'thread\'s update (5 %) are judged but not compared with the model (the theorem covers them through the oracle `seen`)',
+        'overlapping operations, driver glue: the placement of the other threads\' assignments (before which step of an access) is '
+        'reconstructed in Python from the recorded order of lock acquisitions; a wrong placement shows as a disagreement, not as a verdict',
     ],
     'modelled_not_verified': [
         'HasAccessibles.__init_subclass__ read/write wrappers and Module.announceUpdate (callbacks, update message, omission of '
@@ -54,7 +71,9 @@ META = {
     'assumptions': [
         'user-written read_/write_/check_ bodies are oracles: they return a value of the datatype, None (True), or raise',
         'control_active and controlled_by are changed only through the mixin methods (they are readonly for clients)',
-        'sequential histories (one request or driver call at a time); start-up with configured values (writeInitParams) is not part of a history',
+        'float/enum pairs, limits and control hand-over: sequential histories (one request or driver call at a time); struct parameters: '
+        'also accesses overlapping with driver-side assignments of other threads (accesses exclude each other through accessLock); '
+        'start-up with configured values (writeInitParams) is not part of a history',
         'the member names of a struct are distinct (keys of a dict)',
     ],
 }
@@ -238,6 +257,70 @@ def obs_dict(members, d):
     return out
 
 
+def struct_snapshot(mod, conn, case, ok, exc=None):
+    members, prefix = case['members'], case['prefix']
+    evs = []
+    for par, val in updates(conn, 'm'):
+        if par == '_ctrl':
+            evs.append(['struct', obs_dict(members, val)])
+        elif par.startswith('_' + prefix) and par[1 + len(prefix):] in members:
+            evs.append(['mem', par[1 + len(prefix):], num(val)])
+    return {'struct': obs_dict(members, mod.parameters['ctrl'].value),
+            'mem': [[m, num(mod.parameters[prefix + m].value)] for m in members],
+            'sP': pending(mod.parameters['ctrl']), 'mP': [pending(mod.parameters[prefix + m]) for m in members],
+            'evs': evs, 'ok': ok, 'exc': exc}
+
+
+def struct_op(node, conn, mod, case, cur, op):
+    """issue one operation of a struct history on the real code -> (accepted, kind of the driver exception that escaped)"""
+    members, prefix = case['members'], case['prefix']
+    kind, via = op[0], op[-1]
+    cur.clear()
+    ok, exc = True, None
+    try:
+        if kind == 'readStruct':
+            cur['rA'] = [op[1] if is_fail(op[1]) else dict_in(op[1])]
+            cur['rB'] = dict(zip(members, op[2]))
+            if via == 'req':
+                ok, exc = reply_outcome(node.request(conn, 'read', 'm:_ctrl'))
+            else:
+                mod.read_ctrl()
+        elif kind == 'writeStruct':
+            cur['wA'] = [op[2] if isinstance(op[2], str) else dict_in(op[2])]
+            cur['wB'] = dict(zip(members, op[3]))
+            if via == 'req':
+                ok, exc = reply_outcome(node.request(conn, 'change', 'm:_ctrl', dict_in(op[1])))
+            else:
+                mod.write_ctrl(dict_in(op[1]))
+        elif kind == 'readMember':
+            cur['rA'] = [op[2] if is_fail(op[2]) else dict_in(op[2])]
+            cur['rB'] = {op[1]: op[3]}
+            if via == 'req':
+                ok, exc = reply_outcome(node.request(conn, 'read', 'm:_' + prefix + op[1]))
+            else:
+                getattr(mod, 'read_' + prefix + op[1])()
+        elif kind == 'writeMember':
+            cur['wA'] = [op[3] if isinstance(op[3], str) else dict_in(op[3])]
+            cur['rA'] = [op[4] if is_fail(op[4]) else dict_in(op[4])]
+            cur['wB'] = {op[1]: op[5]}
+            cur['rB'] = {op[1]: op[6]}
+            if via == 'req':
+                ok, exc = reply_outcome(node.request(conn, 'change', 'm:_' + prefix + op[1], op[2]))
+            else:
+                getattr(mod, 'write_' + prefix + op[1])(op[2])
+        elif kind == 'assignStruct':
+            mod.ctrl = dict_in(op[1])
+            ok = mod.parameters['ctrl'].readerror is None
+        elif kind == 'assignMember':
+            setattr(mod, prefix + op[1], op[2])
+            ok = mod.parameters[prefix + op[1]].readerror is None
+        else:
+            raise ValueError(kind)
+    except Exception as e:
+        ok, exc = False, EXC_NAMES.get(type(e).__name__)
+    return ok, exc
+
+
 def impl_struct(case):
     """run the history on the real code -> [obs after init, obs after op 1, ...]"""
     cur = {}
@@ -245,68 +328,468 @@ def impl_struct(case):
     cls = build_struct_class(case, cur)
     node, conn = new_node({'m': {'cls': cls, 'description': 'x'}}, case.get('omit', False))
     mod = node.modules['m']
-    members, prefix = case['members'], case['prefix']
-
-    def snapshot(ok, exc=None):
-        evs = []
-        for par, val in updates(conn, 'm'):
-            if par == '_ctrl':
-                evs.append(['struct', obs_dict(members, val)])
-            elif par.startswith('_' + prefix) and par[1 + len(prefix):] in members:
-                evs.append(['mem', par[1 + len(prefix):], num(val)])
-        return {'struct': obs_dict(members, mod.parameters['ctrl'].value),
-                'mem': [[m, num(mod.parameters[prefix + m].value)] for m in members],
-                'sP': pending(mod.parameters['ctrl']), 'mP': [pending(mod.parameters[prefix + m]) for m in members],
-                'evs': evs, 'ok': ok, 'exc': exc}
-
-    trace = [snapshot(True)]
+    trace = [struct_snapshot(mod, conn, case, True)]
     for op in case['ops']:
-        kind, via = op[0], op[-1]
-        cur.clear()
-        ok, exc = True, None
-        try:
-            if kind == 'readStruct':
-                cur['rA'] = [op[1] if is_fail(op[1]) else dict_in(op[1])]
-                cur['rB'] = dict(zip(members, op[2]))
-                if via == 'req':
-                    ok, exc = reply_outcome(node.request(conn, 'read', 'm:_ctrl'))
-                else:
-                    mod.read_ctrl()
-            elif kind == 'writeStruct':
-                cur['wA'] = [op[2] if isinstance(op[2], str) else dict_in(op[2])]
-                cur['wB'] = dict(zip(members, op[3]))
-                if via == 'req':
-                    ok, exc = reply_outcome(node.request(conn, 'change', 'm:_ctrl', dict_in(op[1])))
-                else:
-                    mod.write_ctrl(dict_in(op[1]))
-            elif kind == 'readMember':
-                cur['rA'] = [op[2] if is_fail(op[2]) else dict_in(op[2])]
-                cur['rB'] = {op[1]: op[3]}
-                if via == 'req':
-                    ok, exc = reply_outcome(node.request(conn, 'read', 'm:_' + prefix + op[1]))
-                else:
-                    getattr(mod, 'read_' + prefix + op[1])()
-            elif kind == 'writeMember':
-                cur['wA'] = [op[3] if isinstance(op[3], str) else dict_in(op[3])]
-                cur['rA'] = [op[4] if is_fail(op[4]) else dict_in(op[4])]
-                cur['wB'] = {op[1]: op[5]}
-                cur['rB'] = {op[1]: op[6]}
-                if via == 'req':
-                    ok, exc = reply_outcome(node.request(conn, 'change', 'm:_' + prefix + op[1], op[2]))
-                else:
-                    getattr(mod, 'write_' + prefix + op[1])(op[2])
-            elif kind == 'assignStruct':
-                mod.ctrl = dict_in(op[1])
-                ok = mod.parameters['ctrl'].readerror is None
-            elif kind == 'assignMember':
-                setattr(mod, prefix + op[1], op[2])
-                ok = mod.parameters[prefix + op[1]].readerror is None
-            else:
-                raise ValueError(kind)
-        except Exception as e:
-            ok, exc = False, EXC_NAMES.get(type(e).__name__)
-        trace.append(snapshot(ok, exc))
+        ok, exc = struct_op(node, conn, mod, case, cur, op)
+        trace.append(struct_snapshot(mod, conn, case, ok, exc))
     return trace
+
+
+# ---- overlapping operations: several threads on one module, under the deterministic scheduler
+class PerThread:
+    """the script of the driver bodies, one per thread (a body runs in the thread that issued the operation)"""
+
+    def __init__(self):
+        self.scripts = {}
+
+    def _cur(self):
+        import threading
+        return self.scripts.setdefault(threading.get_ident(), {})
+
+    def get(self, key, default=None):
+        return self._cur().get(key, default)
+
+    def setdefault(self, key, value):
+        return self._cur().setdefault(key, value)
+
+    def __getitem__(self, key):
+        return self._cur()[key]
+
+    def __setitem__(self, key, value):
+        self._cur()[key] = value
+
+    def clear(self):
+        self._cur().clear()
+
+
+class LockLog:
+    """proxy of a module lock: logs the outermost acquisitions and releases"""
+
+    def __init__(self, inner, tag, log, tname):
+        self.inner, self.tag, self.log, self.tname = inner, tag, log, tname
+
+    def acquire(self, *args, **kwds):
+        r = self.inner.acquire(*args, **kwds)
+        if r and self.inner.depth == 1:
+            self.log.append((self.tag + '+', self.tname()))
+        return r
+
+    def release(self):
+        if self.inner.depth == 1:
+            self.log.append((self.tag + '-', self.tname()))
+        self.inner.release()
+
+    __enter__ = acquire
+
+    def __exit__(self, *exc):
+        self.release()
+        return False
+
+
+def overlap_ops(case, log):
+    """place the operations of the threads in the order the model takes them: -> (model operations, [(thread, index)] of the
+    accesses in that order, None) or (None, None, why the run has no exact counterpart in the model).
+    Driver-side assignments are one section under updateLock each.  An access holds accessLock; a generated read_/write_<struct>
+    of the per-member layout becomes an overlapped operation: the assignments other threads completed before each of its own
+    steps (its updateLock sections, its cache reads) go to that position.  Other accesses must have nobody inside."""
+    members, hasR, hasW = case['members'], case['hasR'], case['hasW']
+    progs = case['progs']
+    tix = {f't{k}': k for k in range(len(progs))}
+    cur = {}                 # thread -> (k, i) of its current operation
+    pending = []             # assignments completed and not yet placed: wire form
+    ops, order = [], []      # order: parallel to ops, (thread, index) of an access or None for an assignment
+    inU = {}                 # thread -> inside an outermost updateLock section
+    access = None            # the access in progress: dict
+    started = set()
+
+    def wire(op):
+        return op[:-1]
+
+    def is_assign(op):
+        return op[0] in ('assignStruct', 'assignMember')
+
+    def flush_seq():
+        for a in pending:
+            ops.append(['seq', a])
+            order.append(None)
+        pending.clear()
+
+    def others_inside(t):
+        return any(v for th, v in inU.items() if th != t)
+
+    for ev in log:
+        kind, t = ev[0], ev[1]
+        if t == 'main':
+            continue                      # the sequential tail
+        if kind == 'op':
+            cur[t] = (ev[2], ev[3])
+            continue
+        if kind == 'end':
+            k = ev[2]
+            # operations of this thread that took no lock at all change nothing: place them here
+            for i in range(len(progs[k])):
+                if (k, i) not in started:
+                    started.add((k, i))
+                    if access is not None:
+                        return None, None, 'an operation without locks while an access is in progress'
+                    flush_seq()
+                    ops.append(['seq', wire(progs[k][i])])
+                    order.append((k, i))
+            continue
+        k, i = cur[t]
+        op = progs[k][i]
+        if (k, i) not in started and kind in ('A+', 'U+'):
+            # earlier operations of this thread that took no lock
+            for i0 in range(i):
+                if (k, i0) not in started:
+                    started.add((k, i0))
+                    if access is not None:
+                        return None, None, 'an operation without locks while an access is in progress'
+                    flush_seq()
+                    ops.append(['seq', wire(progs[k][i0])])
+                    order.append((k, i0))
+            started.add((k, i))
+        if is_assign(op):
+            if kind == 'U+':
+                inU[t] = True
+            elif kind == 'U-':
+                inU[t] = False
+                pending.append(wire(op))
+                if access is None:
+                    flush_seq()
+            continue
+        # an access (holds accessLock)
+        if kind == 'A+':
+            flush_seq()
+            structlevel = op[0] in ('readStruct', 'writeStruct')
+            # a generated member method of the combined layout: several steps, what the others do goes to the step it precedes
+            composite = case['combined'] and ((op[0] == 'readMember' and op[1] not in hasR) or (op[0] == 'writeMember' and op[1] not in hasW))
+            access = {'t': t, 'ki': (k, i), 'op': op, 'overlapped': structlevel and not case['combined'], 'structlevel': structlevel,
+                      'composite': composite, 'iv': [],
+                      'before': [], 'seen': [], 'atEnd': [], 'afterRead': [], 'beforeErr': [], 'todo': list(members), 'phase': 'loop',
+                      'sections': 0, 'inside': False}
+            if access['overlapped'] and op[0] == 'writeStruct' and set(dict_in(op[1])) != set(members):
+                access['phase'] = 'refused'
+            continue
+        if kind in ('get', 'getS') and (access is None or access['t'] != t):
+            continue                      # a read of the cache outside any access changes nothing
+        if access is None or access['t'] != t:
+            return None, None, f'unexpected event {ev[:2]}'
+        a = access
+        if kind == 'A-':
+            if a['overlapped']:
+                ov = {'before': a['before'], 'seen': a['seen'], 'atEnd': a['atEnd'], 'afterRead': a['afterRead'], 'beforeErr': a['beforeErr']}
+                ops.append([op[0] + 'O'] + wire(op)[1:] + [ov])
+            elif a['composite']:
+                if op[0] == 'readMember':
+                    ops.append(['readMemberO', op[1], op[2], a['iv']])
+                else:
+                    ops.append(['writeMemberO', op[1], op[2], op[3], op[4], op[6], a['iv']])
+            else:
+                if a['inside']:
+                    return None, None, 'an assignment of another thread inside an access the model treats as one step'
+                ops.append(['seq', wire(op)])
+            order.append(a['ki'])
+            access = None
+            flush_seq()
+            continue
+        if a['composite']:
+            if kind == 'U-':
+                inU[t] = False
+            elif kind == 'U+' or not inU.get(t):
+                # a step: an update, or a read of the cache outside updateLock
+                if kind != 'U+' and others_inside(t):
+                    return None, None, 'a cache read while another thread is in the middle of an update'
+                a['iv'].append(list(pending))
+                pending.clear()
+                if kind == 'U+':
+                    inU[t] = True
+            continue
+        if not a['overlapped']:
+            if kind == 'U+':
+                if pending and a['sections'] == 0:
+                    # one update (an access to the whole struct in the combined layout, a member method written by the
+                    # programmer, a plain wrapper): what the others did so far comes before it
+                    flush_seq()
+                elif pending:
+                    a['inside'] = True
+                a['sections'] += 1
+                inU[t] = True
+            elif kind == 'U-':
+                inU[t] = False
+            elif kind in ('get', 'getS') and (pending or others_inside(t)) and not inU.get(t):
+                a['inside'] = True
+            continue
+        # a generated struct method of the per-member layout: follow its steps
+        if kind == 'U-':
+            inU[t] = False
+            continue
+        if kind in ('get', 'getS') and inU.get(t):
+            continue                      # reads inside its own section (callbacks)
+        if kind in ('get', 'getS') and others_inside(t):
+            return None, None, 'a cache read while another thread is in the middle of an update'
+        if kind == 'U+':
+            inU[t] = True
+        isread = op[0] == 'readStruct'
+        if a['phase'] == 'loop':
+            # the next member that has a step of this kind
+            while a['todo']:
+                m = a['todo'][0]
+                has_section = (m in hasR) if isread else True
+                if isread and not has_section:
+                    if kind == 'get' and ev[2] == m:
+                        a['todo'].pop(0)
+                        a['before'].append([m, list(pending)])
+                        a['seen'].append([m, ev[3]])
+                        pending.clear()
+                        break
+                    return None, None, f'expected the cache read of {m}, got {ev}'
+                outcome = (op[2] if isread else op[3])[members.index(m)]
+                if not isread and m in hasW and is_fail(outcome):
+                    a['todo'] = []       # the body of write_<m> raised: no update, the loop ends
+                    a['before'].append([m, []])
+                    a['phase'] = 'failed'
+                    break
+                if kind != 'U+':
+                    if kind == 'getS':
+                        break            # not a step of the loop (e.g. a callback reading the struct)
+                    return None, None, f'expected the update of {m}, got {ev}'
+                a['todo'].pop(0)
+                a['before'].append([m, list(pending)])
+                pending.clear()
+                if is_fail(outcome) and (m in hasR if isread else m in hasW):
+                    a['todo'] = []
+                    a['phase'] = 'failed'
+                break
+            else:
+                # all members treated: this is the update of the struct with the complete result
+                if kind == 'U+':
+                    a['atEnd'] += list(pending)
+                    pending.clear()
+                    a['phase'] = 'done'
+                continue
+            if a['phase'] == 'loop' or kind != 'getS':
+                continue
+        if a['phase'] == 'failed':
+            if kind == 'getS':
+                a['atEnd'] += list(pending)
+                pending.clear()
+                a['phase'] = 'merge'
+            continue
+        if a['phase'] == 'merge':
+            if kind == 'U+':
+                a['afterRead'] += list(pending)
+                pending.clear()
+                a['phase'] = 'err' if isread else 'done'
+            continue
+        if a['phase'] == 'err':
+            if kind == 'U+':
+                a['beforeErr'] += list(pending)
+                pending.clear()
+                a['phase'] = 'done'
+            continue
+    if access is not None:
+        return None, None, 'an access did not finish'
+    flush_seq()
+    return ops, order, None
+
+
+def impl_struct_conc(case, policy=None):
+    """case['pre'] sequentially, then the threads case['progs'] under the scheduler (schedule: `policy`, default: replay of
+    case['choices']), then case['ops'] sequentially.  -> (scheduler, trace, info); trace = the linked values at every
+    QUIESCENT point: start, after each operation of `pre`, after all threads have finished, after each operation of `ops`.
+    case['fine']: loads and stores of the guard counter of the struct parameter are yield points of their own."""
+    import frappy.modulebase as mb
+    import frappy.protocol.dispatcher as disp
+    from frappy.extparams import StructParam
+    from vlib.sched import Scheduler, ReplayThenDefault, YieldAttr, SchedAbort
+    import contextlib
+    s = Scheduler(policy=policy or ReplayThenDefault(case.get('choices') or []), max_steps=20000)
+    cur = PerThread()
+    with contextlib.ExitStack() as stack:
+        stack.enter_context(s.patched(mb, threading=s.threading, mkthread=s.mkthread))
+        stack.enter_context(s.patched(disp, threading=s.threading))
+        guard = StructParam.__dict__.get('insideRW')
+        if case.get('fine') and isinstance(guard, int):
+            stack.enter_context(s.patched(StructParam, insideRW=YieldAttr(s, 'insideRW', guard)))
+        cls = build_struct_class(case, cur)
+        if len(_nodes) >= 50:
+            cleanup_nodes()
+        node = Node({'m': {'cls': cls, 'description': 'x'}}, omit_unchanged_within=OMIT_WINDOW if case.get('omit') else 0)
+        _nodes.append(node)
+        if node.errors:
+            raise RuntimeError(f'node errors: {node.errors}')
+        conn = node.connect(sched=s)
+        node.request(conn, 'activate', None, None)
+        conn.msgs.clear()
+        mod = node.modules['m']
+        trace = [struct_snapshot(mod, conn, case, True)]
+        for op in case['pre']:
+            ok, exc = struct_op(node, conn, mod, case, cur, op)
+            trace.append(struct_snapshot(mod, conn, case, ok, exc))
+        outcomes = [[] for _ in case['progs']]
+        # the order of events the model needs to place the operations of the threads: who holds accessLock / updateLock
+        # (outermost acquisitions), and what the reads of the cache outside updateLock see
+        log = []
+
+        def tname():
+            me = s.me()
+            return me.name if me is not None else 'main'
+        mod.updateLock = LockLog(mod.updateLock, 'U', log, tname)
+        mod.accessLock = LockLog(mod.accessLock, 'A', log, tname)
+        prefix = case['prefix']
+        for m in case['members']:
+            if not case['combined'] and m not in case['hasR']:
+                def logged_read(self, m=m, orig=getattr(type(mod), 'read_' + prefix + m)):
+                    v = orig(self)
+                    log.append(('get', tname(), m, num(v)))
+                    return v
+                setattr(type(mod), 'read_' + prefix + m, logged_read)
+        from frappy.params import Parameter
+        orig_get = Parameter.__get__
+
+        def logged_get(self, instance, owner):
+            if instance is mod and self.name == 'ctrl':
+                log.append(('getS', tname()))
+            return orig_get(self, instance, owner)
+        stack.enter_context(s.patched(Parameter, __get__=logged_get))
+
+        def body(k):
+            for i, op in enumerate(case['progs'][k]):
+                log.append(('op', tname(), k, i))
+                outcomes[k].append(list(struct_op(node, conn, mod, case, cur, op)))
+            log.append(('end', tname(), k))
+
+        for k in range(len(case['progs'])):
+            s.spawn(f't{k}', body, (k,))
+        out = s.run(wall_timeout=20.0)
+        s.current = None          # the rest runs in the harness thread again
+        trace.append(struct_snapshot(mod, conn, case, all(o[0] for th in outcomes for o in th)))
+        for op in case['ops']:
+            ok, exc = struct_op(node, conn, mod, case, cur, op)
+            trace.append(struct_snapshot(mod, conn, case, ok, exc))
+    info = {'sched': {k: out[k] for k in ('deadlock', 'aborted', 'errors', 'alive')}, 'outcomes': outcomes, 'log': log,
+            'choices': [c[1] for c in s.choices], 'preemptions': sum(1 for c in s.choices if c[1] != c[2]),
+            'complete': all(len(o) == len(p) for o, p in zip(outcomes, case['progs']))}
+    return s, trace, info
+
+
+ROLES = {'poller': ('readStruct', 'readMember'), 'client': ('writeStruct', 'writeMember', 'readStruct', 'readMember'),
+         'driver': ('assignStruct', 'assignMember'), 'structaccess': ('readStruct', 'writeStruct'), 'any': None}
+
+
+def gen_struct_conc(rng, big):
+    """a struct layout, a short sequential prefix, 2..3 threads with 1..2 operations each, a sequential tail.  The threads
+    have the roles threads have in a running node: the poller (reads), a client connection (requests), the driver (updates
+    arriving from the hardware or another module: driver-side assignments), or any mix"""
+    base = gen_struct(rng, True, n=1)
+    if base['combined'] and rng.random() < 0.5:      # the guard counter matters in the per-member layout: seven of ten programs
+        base = dict(base, combined=False, hasRS=False, hasWS=False)
+        base['hasR'] = [m for m in base['members'] if rng.random() < 0.7]
+        base['hasW'] = [m for m in base['members'] if rng.random() < 0.7]
+    pool = gen_struct(rng, True, layout=base, n=120)['ops']
+
+    def draw(role):
+        kinds = ROLES[role]
+        for i, op in enumerate(pool):
+            if kinds is None or op[0] in kinds:
+                return pool.pop(i)
+        return pool.pop()
+    pre = [draw('any') for _ in range(rng.choice([0, 1, 1, 2]))]
+    roles = rng.choice([['poller', 'driver'], ['client', 'driver'], ['client', 'driver'], ['poller', 'client', 'driver'],
+                        ['driver', 'driver'], ['any', 'any'], ['any', 'any', 'any']])
+    rng.shuffle(roles)
+    progs = [[draw(role) for _ in range(rng.choice([1, 1, 2]))] for role in roles]
+    if rng.random() < 0.4:
+        # the basic overlap: one access to the whole struct while the driver updates it
+        progs = [[draw('structaccess')], [draw('driver') for _ in range(rng.choice([1, 1, 2]))]]
+        rng.shuffle(progs)
+    tail = [draw('any') for _ in range(rng.randint(1, 4))]
+    members = base['members']
+    if rng.random() < 0.5:
+        # a steady device: what the driver bodies return is mostly what the module holds already (a poll that finds nothing
+        # new, a write that is echoed) - with omission of unchanged updates such accesses announce nothing
+        v0 = {m: rng.choice([1, 2, 3, 5, 7]) for m in members}
+        pre.append(['assignStruct', [[m, v0[m]] for m in members], 'drv'])
+
+        def steady(op):
+            if rng.random() < 0.25:
+                return op
+            op = list(op)
+            if op[0] == 'readStruct':
+                op[1], op[2] = [[m, v0[m]] for m in members], [v0[m] for m in members]
+            elif op[0] == 'writeStruct':
+                op[1], op[2], op[3] = [[m, v0[m]] for m in members], 'none', ['none' for m in members]
+            elif op[0] == 'readMember':
+                op[2], op[3] = [[m, v0[m]] for m in members], v0[op[1]]
+            elif op[0] == 'writeMember':
+                op[2], op[3], op[4], op[5], op[6] = v0[op[1]], 'none', [[m, v0[m]] for m in members], 'none', v0[op[1]]
+            return op
+        progs = [[steady(op) for op in prog] for prog in progs]
+        tail = [steady(op) for op in tail]
+    return dict(base, kind='structconc', pre=pre, progs=progs, ops=tail, omit=rng.random() < 0.5, fine=rng.random() < 0.5)
+
+
+def gen_basic_overlap(rng):
+    """one scenario of the catalogue of basic overlaps: ONE access (of the poller or a client) to the struct or to a member, on a
+    device that is steady / has changed / fails at some member, while the driver assigns a member or the whole struct (the same
+    value again or a new one); then every member is updated once more by the driver (a link that got lost shows there).
+    Either may be thread 0, all single preemptions of which are explored (one operation inside the other)."""
+    members = rng.choice([['p'], ['p', 'i'], ['p', 'i'], ['p', 'i', 'd']])
+    combined = rng.random() < 0.3
+    hasRS = hasWS = combined
+    if combined and rng.random() < 0.3:
+        hasRS, hasWS = rng.choice([(True, False), (False, True)])
+    own = members if not combined else []
+    if not combined and rng.random() < 0.3:
+        own = [m for m in members if rng.random() < 0.6]
+    v0 = {m: v for m, v in zip(members, rng.sample([1, 2, 3, 5, 7], len(members)))}
+    new = {m: v for m, v in zip(members, rng.sample([10, 20, 30, 50, 70], len(members)))}
+
+    def full(d):
+        return [[m, d[m]] for m in members]
+    device = rng.choice(['steady', 'steady', 'changed', 'fails'])
+    seen = v0 if device == 'steady' else new
+    k = rng.randrange(len(members))
+    m = rng.choice(members)
+    via = rng.choice(['req', 'call'])
+    what = rng.choice(['readStruct', 'readStruct', 'writeStruct', 'writeStruct', 'readMember', 'writeMember'])
+    if what == 'readStruct':
+        rB = [seen[x] for x in members]
+        if device == 'fails':
+            rB[k] = fail_tag(rng)
+        access = ['readStruct', fail_tag(rng) if device == 'fails' else full(seen), rB, via]
+    elif what == 'writeStruct':
+        wB = ['none' for _ in members]
+        if device == 'fails':
+            wB[k] = fail_tag(rng)
+        access = ['writeStruct', full(seen), fail_tag(rng) if device == 'fails' else 'none', wB, via]
+    elif what == 'readMember':
+        access = ['readMember', m, fail_tag(rng) if device == 'fails' else full(seen), fail_tag(rng) if device == 'fails' else seen[m], via]
+    else:
+        access = ['writeMember', m, seen[m], fail_tag(rng) if device == 'fails' else 'none', full(seen), 'none', seen[m], via]
+    m2 = rng.choice(members)
+    other = {x: v + 100 for x, v in new.items()}
+    driver = rng.choice([['assignMember', m2, other[m2], 'drv'], ['assignMember', m2, other[m2], 'drv'], ['assignMember', m2, v0[m2], 'drv'],
+                         ['assignStruct', full(other), 'drv'], ['assignStruct', full(v0), 'drv']])
+    tail = [['assignMember', x, 1000 + i, 'drv'] for i, x in enumerate(members)]
+    return {'kind': 'structconc', 'members': members, 'prefix': rng.choice(['', 'pid_']), 'combined': combined, 'hasRS': hasRS,
+            'hasWS': hasWS, 'hasR': list(own), 'hasW': list(own), 'pre': [['assignStruct', full(v0), 'drv']],
+            'progs': rng.choice([[[access], [driver]], [[driver], [access]]]), 'ops': tail, 'omit': rng.random() < 0.5,
+            'fine': rng.random() < 0.4, 'basic': True}
+
+
+def sig_struct_conc(case, bad):
+    layout = 'combined' if case['combined'] else 'permember'
+    npre = len(case['pre'])
+    if bad <= npre:
+        return f'C18:struct:{layout}:' + (case['pre'][bad - 1][0] if bad else 'initial')
+    # the conditions of the run belong to what fails: preemption only at lock/send primitives or also between load and
+    # store of the guard counter; with or without omission of unchanged updates
+    cond = ('guard-load-store' if case.get('fine') else 'lock-level') + ('+omit-unchanged' if case.get('omit') else '')
+    if bad == npre + 1:
+        return f'C18:struct:{layout}:overlapping-operations:{cond}'
+    return f'C18:struct:{layout}:after-overlapping-operations:{cond}:' + case['ops'][bad - npre - 2][0]
 
 
 def wire_struct(case, trace):
@@ -321,7 +804,8 @@ def judge_struct_req(case, trace):
             'trace': [[t['struct'], t['mem']] for t in trace]}
 
 
-def gen_struct(rng, big):
+def gen_struct(rng, big, layout=None, n=None):
+    """layout: take the layout of this case instead of drawing one; n: number of operations"""
     members = rng.choice([['p'], ['p', 'i'], ['p', 'i', 'd'], ['a', 'b', 'c', 'dd']])
     # which of read_<struct> / write_<struct> the programmer wrote: both, one of them (the other is the plain wrapper), neither
     hasRS, hasWS = rng.choice([(True, True)] * 7 + [(True, False)] * 2 + [(False, True)] * 2 + [(False, False)] * 9)
@@ -331,6 +815,8 @@ def gen_struct(rng, big):
     pm = 0.7 if not combined else rng.choice([0, 0, 0.3])
     hasR = [m for m in members if rng.random() < pm]
     hasW = [m for m in members if rng.random() < pm]
+    if layout is not None:
+        members, prefix, combined, hasRS, hasWS, hasR, hasW = (layout[k] for k in ('members', 'prefix', 'combined', 'hasRS', 'hasWS', 'hasR', 'hasW'))
 
     def val():
         return rng.choice([0, 1, 2, 3, 5, 7, -1, -4, 9, 100])
@@ -371,7 +857,7 @@ def gen_struct(rng, big):
             return v
         return val()
 
-    n = rng.randint(1, 30 if big else 12)
+    n = n or rng.randint(1, 30 if big else 12)
     ops = []
     for _ in range(n):
         via = rng.choice(['req', 'call'])
@@ -964,21 +1450,70 @@ def wire_layers(case):
     return [layer[:4] for layer in case['layers']]
 
 
+def limits_numbers(case, trace):
+    """every number of a limits case and of its trace (quarter units: value * LSCALE; integers on the coarse grid, binary64
+    values next to a limit are not)"""
+    nums = [case['lo'], case['hi'], case['value0']]
+    for op in case['ops']:
+        nums += [v for v in op[1:-1] if isinstance(v, (int, float)) and not isinstance(v, bool)]
+    for t in trace:
+        nums += [t['value'], t['write']] + (t['setLimits'] or [])
+        for lim in (t['before'], t['after']):
+            nums += [lim['min'], lim['max']] + (lim['limits'] or [])
+        for e in t['evs']:
+            nums += e[1:]
+    return [x for x in nums if x is not None]
+
+
+def limits_den(case, trace):
+    """common denominator of all numbers of the case (binary64 values are dyadic rationals): the model and the monitor work on
+    exact integers, whatever the distance between a value and a limit"""
+    den = 1
+    for x in limits_numbers(case, trace):
+        den = max(den, Fraction(x).denominator)
+    return den
+
+
+def lsc(den, x):
+    if x is None or isinstance(x, (str, bool)):
+        return x
+    if isinstance(x, list):
+        return [lsc(den, v) for v in x]
+    f = Fraction(x) * den
+    assert f.denominator == 1, (x, den)
+    return int(f)
+
+
 def wire_limits(case, trace):
-    return {'p': 'C18', 'k': 'limits', 'lo': case['lo'], 'hi': case['hi'], 'layers': wire_layers(case), 'hasW': case['hasW'],
-            'omit': bool(case.get('omit')), 'errs0': trace[0]['errs'],
-            'value0': case['value0'], 'ops': [op[:-1] for op in case['ops']]}
+    den = limits_den(case, trace)
+    ops = []
+    for op in case['ops']:
+        if op[0] == 'write':
+            ops.append(['write', lsc(den, op[1]), op[2], lsc(den, op[3])])
+        else:
+            ops.append([op[0]] + [lsc(den, v) for v in op[1:-1]])
+    return {'p': 'C18', 'k': 'limits', 'lo': lsc(den, case['lo']), 'hi': lsc(den, case['hi']), 'layers': wire_layers(case),
+            'hasW': case['hasW'], 'omit': bool(case.get('omit')), 'errs0': trace[0]['errs'],
+            'value0': lsc(den, case['value0']), 'ops': ops}
+
+
+def scaled_limits(den, lim):
+    return {'min': lsc(den, lim['min']), 'max': lsc(den, lim['max']), 'limits': lsc(den, lim['limits'])}
 
 
 def judge_limits_req(case, trace):
-    keys = ('write', 'stopAt', 'echo', 'setLimits', 'ok', 'before', 'after', 'value')
-    return {'p': 'C18', 'k': 'judge_limits', 'layers': wire_layers(case), 'trace': [{k: t[k] for k in keys} for t in trace]}
+    den = limits_den(case, trace)
+    return {'p': 'C18', 'k': 'judge_limits', 'layers': wire_layers(case),
+            'trace': [{'write': lsc(den, t['write']), 'stopAt': t['stopAt'], 'echo': t['echo'], 'setLimits': lsc(den, t['setLimits']),
+                       'ok': t['ok'], 'before': scaled_limits(den, t['before']), 'after': scaled_limits(den, t['after']),
+                       'value': lsc(den, t['value'])} for t in trace]}
 
 
-def limits_canon(case, t):
+def limits_canon(case, t, den=1):
     """observation compared with the model: the model carries all three limit parameters, the code only those that exist"""
-    return {'value': t['value'], 'min': t['after']['min'], 'max': t['after']['max'], 'limits': t['after']['limits'],
-            'errs': t['errs'], 'evs': t['evs'], 'ok': t['ok'], 'exc': t['exc']}
+    return {'value': lsc(den, t['value']), 'min': lsc(den, t['after']['min']), 'max': lsc(den, t['after']['max']),
+            'limits': lsc(den, t['after']['limits']), 'errs': t['errs'], 'evs': [[e[0]] + lsc(den, e[1:]) for e in t['evs']],
+            'ok': t['ok'], 'exc': t['exc']}
 
 
 def model_limits_canon(case, s):
@@ -999,8 +1534,21 @@ def gen_limits(rng, big):
     def inside():
         return rng.randrange(lo, hi + 1, step) if not is_int else LSCALE * rng.randint(lo // LSCALE, hi // LSCALE)
 
+    # what the limit parameters hold if every operation generated so far was accepted (quarter units)
+    refs = {'min': lo, 'max': hi, 'lim_lo': lo, 'lim_hi': hi}
+
+    def near_limit():
+        """a binary64 value right next to a limit (one ulp, a relative offset of 2^-k, an absolute offset of 10^-e, on either
+        side): "outside its current limits" does not depend on how far outside.  Strictly inside the range of the datatype,
+        where FloatRange.validate leaves a value as it is (its clamping band at the ends of the range is not modelled)."""
+        ref = rng.choice([refs['min']] * has['min'] + [refs['max']] * has['max'] + [refs['lim_lo'], refs['lim_hi']] * has['limits'])
+        x = near_value(rng, ref / LSCALE) * LSCALE if ref else rng.choice([-1, 1]) * LSCALE * 10.0 ** -rng.choice([6, 9, 10, 12, 15])
+        return x if lo < x < hi else ref
+
     def anyval():
         r = rng.random()
+        if not is_int and r < 0.14:
+            return near_limit()
         if r < 0.7:
             return inside()
         if r < 0.8:
@@ -1034,24 +1582,31 @@ def gen_limits(rng, big):
             ops.append(['write', x, checks(), w, via])
         elif r < 0.55 and has['min']:
             ops.append(['writeMin', anyval(), via])
+            refs['min'] = ops[-1][1]
         elif r < 0.65 and has['max']:
             ops.append(['writeMax', anyval(), via])
+            refs['max'] = ops[-1][1]
         elif r < 0.8 and has['limits']:
             a, b = anyval(), anyval()
             if rng.random() < 0.6 and a > b:
                 a, b = b, a
             ops.append(['writeLimits', a, b, via])
+            if a <= b:
+                refs['lim_lo'], refs['lim_hi'] = a, b
         elif r < 0.86:
             ops.append(['assign', anyval(), 'drv'])
         elif r < 0.9 and has['min']:
             ops.append(['assignMin', anyval(), 'drv'])
+            refs['min'] = ops[-1][1]
         elif r < 0.94 and has['max']:
             ops.append(['assignMax', anyval(), 'drv'])
+            refs['max'] = ops[-1][1]
         elif has['limits']:
             a, b = anyval(), anyval()
             if rng.random() < 0.7 and a > b:
                 a, b = b, a
             ops.append(['assignLimits', a, b, 'drv'])
+            refs['lim_lo'], refs['lim_hi'] = a, b
         else:
             x = anyval()
             ops.append(['write', x, checks(), 'none', via])
@@ -1223,6 +1778,9 @@ def prepare(case):
     if kind == 'struct':
         trace = impl_struct(case)
         return trace, wire_struct(case, trace), judge_struct_req(case, trace), trace
+    if kind == 'structconc':
+        _, trace, info = impl_struct_conc(case)
+        return trace, conc_model_req(case, trace, info), judge_struct_req(case, trace), trace
     if kind == 'floatenum':
         vdict, lo, hi, trace = impl_floatenum(case)
         model, judge, canon = fe_requests(case, vdict, lo, hi, trace)
@@ -1230,7 +1788,8 @@ def prepare(case):
     if kind == 'limits':
         case = limits_case(case)
         trace = impl_limits(case)
-        return trace, wire_limits(case, trace), judge_limits_req(case, trace), [limits_canon(case, t) for t in trace]
+        den = limits_den(case, trace)
+        return trace, wire_limits(case, trace), judge_limits_req(case, trace), [limits_canon(case, t, den) for t in trace]
     if kind == 'labels':
         impl = impl_labels(case)
         model, canon = labels_requests(case, impl)
@@ -1271,10 +1830,57 @@ def first_diff(a, b):
     return None if len(a) == len(b) else min(len(a), len(b))
 
 
+def conc_model_req(case, trace, info):
+    """the model request for a run with overlapping operations; info['exact'] tells whether the run has an exact counterpart"""
+    noop = {'p': 'C18', 'k': 'judge_struct', 'members': [], 'trace': []}
+    sched = info['sched']
+    if sched['deadlock'] or sched['aborted'] or sched['errors'] or sched['alive'] or not info['complete']:
+        info['exact'], info['why'] = False, 'threads did not finish'
+        return noop
+    ops, order, why = overlap_ops(case, info['log'])
+    info['exact'], info['why'], info['order'] = ops is not None, why, order
+    if ops is None:
+        return noop
+    info['nconc'] = len(ops)
+    info['noverlap'] = sum(1 for op in ops if op[0] in ('readStructO', 'writeStructO') and (
+        any(b for _, b in op[-1]['before']) or op[-1]['atEnd'] or op[-1]['afterRead'] or op[-1]['beforeErr']))
+    info['ncomposite'] = sum(1 for op in ops if op[0] in ('readMemberO', 'writeMemberO') and any(op[-1]))
+    allops = [['seq', op[:-1]] for op in case['pre']] + ops + [['seq', op[:-1]] for op in case['ops']]
+    return {'p': 'C18', 'k': 'struct_overlap', 'members': case['members'], 'hasRS': case['hasRS'], 'hasWS': case['hasWS'],
+            'hasR': case['hasR'], 'hasW': case['hasW'], 'omit': bool(case.get('omit')), 'sP0': trace[0]['sP'],
+            'mP0': [m for m, p in zip(case['members'], trace[0]['mP']) if p], 'ops': allops}
+
+
+def conc_compare(case, trace, info, answer):
+    """-> None or a disagreement: the model states at the quiescent points of the run against the implementation"""
+    keys = ('struct', 'mem', 'sP', 'mP', 'evs', 'ok', 'exc')
+    states = [answer['init']] + answer['states']
+    npre, nconc = len(case['pre']), info['nconc']
+    mo = states[:npre + 1]
+    phase = states[npre + 1:npre + 1 + nconc]
+    joined = dict(phase[-1]) if phase else dict(states[npre])
+    joined['evs'] = [e for st in phase for e in st['evs']]
+    mo.append(joined)
+    mo += states[npre + 1 + nconc:]
+    io = [{k: t[k] for k in keys} for t in trace]
+    for i, (x, y) in enumerate(zip(mo, io)):
+        ks = keys if i != npre + 1 else ('struct', 'mem', 'sP', 'mP', 'evs')
+        if any(x[k] != y[k] for k in ks):
+            return {'case': case, 'at': i, 'model': {k: x[k] for k in ks}, 'impl': {k: y[k] for k in ks}}
+    # outcome of every access of the threads, in the order the model took them
+    for owner, st in zip(info['order'], phase):
+        if owner is not None and [st['ok'], st['exc']] != info['outcomes'][owner[0]][owner[1]]:
+            return {'case': case, 'at': f'thread {owner[0]} operation {owner[1]}', 'model': [st['ok'], st['exc']],
+                    'impl': info['outcomes'][owner[0]][owner[1]]}
+    return None
+
+
 def signature(case, bad, trace):
     kind = case['kind']
     if kind == 'struct':
         return sig_struct(case, bad)
+    if kind == 'structconc':
+        return sig_struct_conc(case, bad)
     if kind == 'floatenum':
         return sig_floatenum(case, bad, trace)
     if kind == 'limits':
@@ -1287,7 +1893,7 @@ def signature(case, bad, trace):
 def linked_values(case, t):
     """the linked parameter values of one record (what the property is about)"""
     kind = case['kind']
-    if kind == 'struct':
+    if kind in ('struct', 'structconc'):
         return [t['struct'], t['mem']]
     if kind == 'floatenum':
         return [t['idx'], t['value']]
@@ -1361,7 +1967,8 @@ def run(ctx):
                 'struct values; floatenum - the index changed and a float write was accepted; limits - a write accepted, a write '
                 'refused and a limit moved; control - at least three distinct (controlled_by, control_active) states; labels - an '
                 'accepted label list with at least two values, not all bare labels.  40 % of the histories run with omission of '
-                'unchanged updates (omit_unchanged_within = 10^6 s), the others with 0')
+                'unchanged updates (omit_unchanged_within = 10^6 s), the others with 0.  overlapping operations (struct): a run is '
+                'non-trivial when the threads issue at least two kinds of operations, a preemption took place and the struct changed')
     big = ctx.tier == 'thorough' or ctx.escalated
     rng = ctx.rng
     cases = []
@@ -1370,7 +1977,8 @@ def run(ctx):
         for fn in sorted(os.listdir(cdir)):
             with open(os.path.join(cdir, fn)) as f:
                 cases.append(json.load(f)['case'])
-    cases = [constructible(c) for c in cases]
+    corpus_conc = [c for c in cases if c['kind'] == 'structconc']
+    cases = [constructible(c) for c in cases if c['kind'] != 'structconc']
     ncorpus = len(cases)
     per = ctx.budget(500, 6250)
     for kind in ('struct', 'floatenum', 'limits', 'control'):
@@ -1384,9 +1992,99 @@ def run(ctx):
 
     shrunk = {}
     chunk = 400
+    # first: the scheduled runs are three times slower at the end of a long run (thousands of module classes later)
+    _run_conc(ctx, res, corpus_conc, big)
     for start in range(0, len(cases), chunk):
         _run_chunk(ctx, res, cases[start:start + chunk], start, ncorpus, shrunk)
     return res
+
+
+def _run_conc(ctx, res, corpus, big):
+    """overlapping operations on a struct parameter: generated programs x schedules (no preemption, single preemptions,
+    then random), every run judged by the Lean monitor at its quiescent points"""
+    from vlib.sched import explore, RandomPolicy
+    rng = ctx.rng
+    nprog = ctx.budget(96, 900)
+    per_basic, per_random = (44, 12) if not big else (60, 24)
+    runs = []
+    for case in corpus:
+        _, trace, info = impl_struct_conc(case)
+        runs.append((case, trace, info))
+    for i in range(nprog):
+        # half of the programs from the catalogue of basic overlaps (all single preemptions of the access), the others random
+        basic = i % 2 == 0
+        prog = gen_basic_overlap(rng) if basic else gen_struct_conc(rng, big)
+        per_prog = per_basic if basic else per_random
+
+        def make_run(policy, prog=prog):
+            s, trace, info = impl_struct_conc(prog, policy)
+            return s, (dict(prog, choices=info['choices']), trace, info)
+        n = 0
+        # every single preemption first (as far as the budget goes, in random order), then random schedules
+        for _, _, ro in explore(make_run, max_preemptions=1, max_runs=(per_prog * 10) // 11 if basic else (per_prog * 3) // 4, rng=rng):
+            runs.append(ro)
+            n += 1
+        while n < per_prog:
+            runs.append(make_run(RandomPolicy(rng, rng.choice([0.2, 0.5, 0.8])))[1])
+            n += 1
+    reqs = []
+    for case, trace, info in runs:
+        reqs.append(conc_model_req(case, trace, info))
+        reqs.append(judge_struct_req(case, trace))
+    answers = ctx.driver.batch(reqs)
+    reported = {}
+    for j, (case, trace, info) in enumerate(runs):
+        model, judge = answers[2 * j], answers[2 * j + 1]
+        if 'driver_error' in judge or 'driver_error' in model:
+            raise RuntimeError(f'driver error: {model.get("driver_error")} {judge.get("driver_error")} case={json.dumps(case)[:500]}')
+        if info['exact']:
+            res.count('structconc.compared-with-the-model')
+            if info['noverlap']:
+                res.count('structconc.compared-with-assignments-inside-a-struct-access')
+            if info['ncomposite']:
+                res.count('structconc.compared-with-assignments-inside-a-generated-member-method')
+            if ctx.model_ok:
+                d = conc_compare(case, trace, info, model)
+                if d is not None and len(res.disagreements) < 20:
+                    res.disagreements.append(d)
+        elif info['why'] != 'threads did not finish':
+            res.count('structconc.judged-only: ' + info['why'][:70])
+        res.evaluations += 1
+        res.traces += 1
+        res.count('structconc.runs')
+        res.count('structconc.catalogue-of-basic-overlaps' if case.get('basic') else 'structconc.random-programs')
+        res.count(f'structconc.threads-{len(case["progs"])}')
+        res.count('structconc.layout-' + ('combined' if case['combined'] else 'permember'))
+        res.count('structconc.preemptions-%d' % min(3, info['preemptions']))
+        if case.get('fine'):
+            res.count('structconc.guard-load-store-yield-points')
+        if case.get('omit'):
+            res.count('structconc.omit-unchanged-updates')
+        sched = info['sched']
+        if sched['deadlock'] or sched['aborted'] or sched['errors'] or sched['alive'] or not info['complete']:
+            # the threads must finish: anything else is reported like a disagreement with the model (where they always do)
+            if len(res.disagreements) < 20:
+                res.disagreements.append({'case': case, 'model': 'all threads finish', 'impl': sched})
+            continue
+        kinds = {op[0] for prog in case['progs'] for op in prog}
+        if len(kinds) >= 2 and info['preemptions'] > 0 and len({json.dumps(t['struct']) for t in trace}) >= 2:
+            res.nontriv({k: v for k, v in case.items() if k != 'ops'})
+        for bad in new_bads(case, trace, judge['bads']):
+            sig = signature(case, bad, trace)
+            npre = len(case['pre'])
+            small = dict(case, ops=case['ops'][:max(0, bad - npre - 1)])
+            if reported.get(sig, 0) < 2:
+                reported[sig] = reported.get(sig, 0) + 1
+                what = (f'struct, overlapping operations ({"combined" if case["combined"] else "per-member"} layout, members '
+                        f'{case["members"]}, own read_ {case["hasR"]}, own write_ {case["hasW"]}, omit unchanged: {bool(case.get("omit"))}, preemption '
+                        f'{"also between load and store of the guard counter" if case.get("fine") else "at lock/send primitives"}): '
+                        f'after {json.dumps(case["pre"])}, then the threads {json.dumps(case["progs"])} under schedule '
+                        f'{info["choices"]}, then {json.dumps(small["ops"])} the recorded values are '
+                        f'{json.dumps({k: v for k, v in trace[bad].items() if k != "evs"})}')
+            else:
+                what = 'struct, overlapping operations: see first occurrence'
+            res.violations.append({'sig': sig, 'what': what, 'case': small, 'detail': {'first_bad_index': bad}})
+            break
 
 
 def prepare_limited(case):
@@ -1448,6 +2146,8 @@ def _run_chunk(ctx, res, cases, offset, ncorpus, shrunk):
             for t in trace[1:]:
                 if t['stopAt'] is not None:
                     res.count('limits.check-returned-true')
+                if isinstance(t['write'], float):
+                    res.count('limits.write-next-to-a-limit-' + ('accepted' if t['ok'] else 'refused'))
         if nontrivial(case, trace):
             res.nontriv(case)
         if len(res.samples) < 6 and j >= ncorpus and len(case['ops']) <= 5 and nontrivial(case, trace) \
@@ -1478,7 +2178,7 @@ def _run_chunk(ctx, res, cases, offset, ncorpus, shrunk):
                     small, strace, sbad = case, trace, bad
                 else:
                     sbad = sigs[sig]
-                layout = f' (classes in MRO order, [min, max, limits declared, own check method, mixin]: ' \
+                layout = f' (all values x {LSCALE}; classes in MRO order, [min, max, limits declared, own check method, mixin]: ' \
                          f'{json.dumps(limits_case(small)["layers"])})' if kind == 'limits' else ''
                 what = f'{kind}{layout}: after {json.dumps(small["ops"][:sbad])} the recorded values are ' \
                        f'{json.dumps({k: v for k, v in strace[sbad].items() if k != "evs"})}'
@@ -1495,8 +2195,12 @@ def replay(ctx, rp):
     a = ctx.driver.batch([model, judge])
     mo, io = model_obs(case, a[0]) if 'init' in a[0] else a[0], impl_obs(case, canon)
     print('case  :', json.dumps({k: v for k, v in case.items() if k != 'ops'}))
+    labels = ['(initial state)'] + [json.dumps(op) for op in case['ops']]
+    if case['kind'] == 'structconc':
+        labels = ['(initial state)'] + [json.dumps(op) for op in case['pre']] + \
+                 [f'threads {json.dumps(case["progs"])} under schedule {case.get("choices")}'] + [json.dumps(op) for op in case['ops']]
     for i in range(len(io)):
-        print(f'  [{i}] op    :', json.dumps(case['ops'][i - 1]) if i else '(initial state)')
+        print(f'  [{i}] op    :', labels[i])
         print('       impl  :', json.dumps(io[i]))
         print('       model :', json.dumps(mo[i]) if isinstance(mo, list) and i < len(mo) else mo)
     print('judge :', a[1])
